@@ -1216,8 +1216,11 @@ def run(tier, seed, replay=None):
         rule='streams corpus (past false alarms), bounds (every bound x include_boundary x values adjacent to the bound: bound, +-1, +-ulp, +-0.0, '
              '+-inf, NaN, huge ints, bools), lengths (limit-1/limit/limit+1 for every Sized kind), notempty (every whitespace class), email (seed '
              'addresses, single edits, random), uuid, enum (IntEnum / Enum x int, float, str, bytes, members), pattern, iso, unix, nested (random '
-             'ForEach/Composite trees of depth <= 3 (quick) / 4 with values shaped for the children), convert (value x target), roundtrip, '
-             'prims (CPython primitives of the model one by one), digitlimit; distinct = canonical JSON of the case; non-trivial = every case '
+             'ForEach/Composite trees of depth <= 3 (quick) / 4 with values shaped for the children; one fifth: a Composite with converting '
+             'children handed DIRECTLY to ForEach / to another Composite), sequence (ONE validator instance - every kind, also nested - called on a '
+             'sequence of values reject/accept/reject..., validate and validate_param alternating, every call judged on its own), convert (value x '
+             'target), roundtrip, prims (CPython primitives of the model one by one), digitlimit (ints / digit strings at 4300 / 4301 digits through '
+             'convert_value and the model; validators on such ints against the property text alone); distinct = canonical JSON of the case; non-trivial = every case '
              'except the primitive self-checks',
         checker_cmd='make -C coq Props/C14.vo && coqc -Q coq PV coq/Props/C14.v (Print Assumptions under every theorem)',
         trusted_base=['Coq 8.16.1 kernel (coqc; vm_compute for model evaluation and shapes_good)',
